@@ -89,6 +89,28 @@ def stored_names(src):
     return out
 
 
+def top_names(src):
+    """names bound at module level by the generated module"""
+    out = set()
+    for n in ast.parse(src).body:
+        if isinstance(n, (ast.FunctionDef, ast.ClassDef)):
+            out.add(n.name)
+        elif isinstance(n, (ast.Assign, ast.AugAssign, ast.AnnAssign)):
+            for x in ast.walk(n):
+                if isinstance(x, ast.Name) and isinstance(x.ctx, ast.Store):
+                    out.add(x.id)
+        elif isinstance(n, (ast.Import, ast.ImportFrom)):
+            for a in n.names:
+                out.add((a.asname or a.name).split('.')[0])
+        elif isinstance(n, (ast.If, ast.Try, ast.With, ast.For, ast.While)):
+            for x in ast.walk(n):
+                if isinstance(x, (ast.FunctionDef, ast.ClassDef)):
+                    out.add(x.name)
+                elif isinstance(x, ast.Name) and isinstance(x.ctx, ast.Store):
+                    out.add(x.id)
+    return out
+
+
 def run(R):
     R.build()
     R.prove('Props/C20.v')
@@ -115,6 +137,26 @@ def run(R):
             jobs.append((gid, instantiate(tpl, full), texts, {}))
             meta[gid] = (tname, label, base_id, {k: full[k] for k in keys})
             gid += 1
+    # a rule named like a helper function the generator defines at module level (<prefix><user name> vs <helper><id>)
+    sys.path.insert(0, core.REPO)
+    from sourcer import Grammar
+    HELPER_TPL = ('helper-functions', 'start = @Tpl@(["a", "b"]) << @Rule@?\n@Tpl@(@p1@) = [@p1@, @p1@]\n@Rule@ = "c"\n', ['abab', 'ababc', 'ab', '', 'c'])
+    tname, tpl, texts = HELPER_TPL
+    keys = sorted(set(re.findall(r'@(\w+)@', tpl)))
+    jobs.append((gid, instantiate(tpl, PLAIN), texts, {}))
+    base_id = gid
+    gid += 1
+    try:
+        plain_src = Grammar(instantiate(tpl, PLAIN), include_source=True)._source_code
+    except Exception:                       # noqa
+        plain_src = ''
+    helper_ids = sorted(set(re.findall(r'^def _\w*?function_(\d+)\(', plain_src, re.M)), key=int)
+    for hid in helper_ids + [str(k) for k in range(0, 12)]:
+        for stem in ('function_', 'parse_function_', 'error', 'raise_error', 'matcher'):
+            full = {**PLAIN, 'Rule': stem + hid}
+            jobs.append((gid, instantiate(tpl, full), texts, {}))
+            meta[gid] = (tname, f'helper-lookalike:{stem}{hid}', base_id, {k: full[k] for k in keys})
+            gid += 1
     recs = gramrun.run_grammars(jobs, chunk=10)
     def mech(r, c, got, want):
         m = meta.get(r['gid'])
@@ -140,8 +182,6 @@ def run(R):
         else:
             R.traces += 1
     # static scan of the emitted source: every name the generator stores is a user name or starts with an underscore
-    sys.path.insert(0, core.REPO)
-    from sourcer import Grammar
     API = {'parse', 'visit', 'traverse', 'transform', 'Infix', 'Prefix', 'Postfix', 'ParsedObject', 'ParsingRule', 'InputError',
            'ParseError', 'PartialParseError'}
     for tname, tpl, texts in TEMPLATES:
@@ -151,13 +191,33 @@ def run(R):
         st = stored_names(g._source_code)
         R.count('static-scan', tname, nontrivial=True)
         for fn, names in st.items():
-            if not (fn.startswith('_try_') or fn.startswith('_parse_function_')):
+            if not (fn.startswith('_try_') or fn.startswith('_function_') or fn.startswith('_parse_function_')):
                 continue
             bad = sorted(n for n in names if not n.startswith('_') and n not in users)
             if bad:
                 R.counterexample('static-scan', 'temporary-in-the-user-namespace', {'template': tname, 'function': fn},
                                  'every name stored by generated rule code is a user name or starts with an underscore', bad)
                 break
+    # module level: a name the generator defines on its own account must not have the shape of a name DERIVED from a
+    # user name (X, _parse_X, _try_X with X a user identifier), whatever the user names are
+    ident = re.compile(r'[A-Za-z][A-Za-z0-9_]*$')
+    for tname, tpl, texts in TEMPLATES + [HELPER_TPL]:
+        desc = instantiate(tpl, PLAIN)
+        g = Grammar('grammar c20scan\n' + desc, include_source=True)
+        users = set(PLAIN.values()) | {'start'}
+        top = top_names(g._source_code)
+        R.count('static-scan-module', tname, nontrivial=True)
+        for n in sorted(top):
+            derived_from = None
+            for pre in ('_parse_', '_try_', ''):
+                if n.startswith(pre) and ident.match(n[len(pre):]):
+                    derived_from = n[len(pre):]
+                    break
+            if derived_from is None or derived_from in users or (n in API):
+                continue
+            R.counterexample('static-scan-module', 'generated-name-in-the-space-of-derived-user-names @ ' + re.sub(r'\d+', 'N', n),
+                             {'template': tname, 'generated_name': n, 'colliding_user_name': derived_from},
+                             'module-level names of the generator are not of the form X / _parse_X / _try_X for an identifier X', n)
     R.assumptions += ['identifiers are ASCII, do not start with an underscore and are not Python keywords',
                       'objects are compared by structure (class identity by order of definition, fields by position), so renamed class and field names compare equal']
     return R.finish(
